@@ -2,5 +2,6 @@
 # Builds the simulator from files on disk only (offline).
 cd "$(dirname "$0")/sim" || exit 2
 export CARGO_NET_OFFLINE=true
+unset CARGO_TARGET_DIR CARGO_BUILD_TARGET_DIR RUSTFLAGS CARGO_ENCODED_RUSTFLAGS
 mkdir -p target
 cargo build --release --offline 2>&1 | tail -3
